@@ -5,7 +5,11 @@
 package vsync
 
 import (
+	"reflect"
+	"runtime"
+	"strings"
 	"sync"
+	"time"
 	"unsafe"
 
 	"github.com/akrennmair/updog/zzverif/vsched"
@@ -36,6 +40,65 @@ func (m *Map) CompareAndSwap(key, old, new any) bool {
 func (m *Map) CompareAndDelete(key, old any) bool { m.pt(); return m.m.CompareAndDelete(key, old) }
 func (m *Map) Range(f func(key, value any) bool)  { m.pt(); m.m.Range(f) }
 func (m *Map) Clear()                             { m.pt(); m.m.Clear() }
+
+// Channel operations. tools/prep rewrites `<-ch`, `v, ok := <-ch`, `ch <- v` and `close(ch)` (outside the communication
+// clauses of a select) in the packages under test into calls of these functions. The operation itself is the real one;
+// the scheduler is told that the goroutine may park in it (vsched.ExtBegin / ExtEnd), notices when it does, and lets the
+// other threads run until somebody completes the operation.
+
+func chanID(ch any) uintptr {
+	v := reflect.ValueOf(ch)
+	if !v.IsValid() || v.IsNil() {
+		return 0
+	}
+	return v.Pointer()
+}
+
+func Recv[T any](ch <-chan T) T {
+	v, _ := Recv2(ch)
+	return v
+}
+
+func Recv2[T any](ch <-chan T) (v T, ok bool) {
+	t := vsched.ExtBegin(chanID(ch))
+	if t == nil && Sequential {
+		// sequential harness: a receive that nobody can ever complete is a hang, decided by state (see SeqAcquire)
+		SeqAcquire(func() bool {
+			select {
+			case v, ok = <-ch:
+				return true
+			default:
+				return false
+			}
+		}, "channel receive")
+		return v, ok
+	}
+	v, ok = <-ch
+	vsched.ExtEnd(t)
+	return v, ok
+}
+
+func Send[T any](ch chan<- T, v T) {
+	t := vsched.ExtBegin(chanID(ch))
+	if t == nil && Sequential {
+		SeqAcquire(func() bool {
+			select {
+			case ch <- v:
+				return true
+			default:
+				return false
+			}
+		}, "channel send")
+		return
+	}
+	ch <- v
+	vsched.ExtEnd(t)
+}
+
+func Close[T any](ch chan<- T) {
+	vsched.Point(vsched.OpAtomic, chanID(ch), 0)
+	close(ch)
+}
 
 // Pool is sync.Pool with Get and Put announced to the scheduler. Under the scheduler Get hands out the most recently Put
 // object (the real pool may return anything or nothing; a shared object is the interesting case).
@@ -94,7 +157,75 @@ var Sequential bool
 type Blocked struct{ Op string }
 
 func (b Blocked) Error() string {
-	return b.Op + " would block forever (the lock is held and nobody else is running)"
+	return b.Op + " would block forever (nobody is left who could release or complete it)"
+}
+
+// SeqAcquire is the blocking acquisition of a sequential harness: try is attempted until it succeeds; the verdict "this
+// call hangs" (panic Blocked) is given only when every OTHER goroutine of the process is parked in a wait that only
+// another goroutine could end (channel operation, lock, cond, waitgroup) on 50 consecutive looks 2 ms apart - i.e. when
+// nobody is left who could release what the caller waits for. Goroutines started by the code under test (a parallel
+// loader, a background flusher) that are running, sleeping or in a system call keep the caller waiting, as they should.
+func SeqAcquire(try func() bool, op string) {
+	if try() {
+		return
+	}
+	quiet := 0
+	for {
+		runtime.Gosched()
+		if try() {
+			return
+		}
+		if othersParked() {
+			quiet++
+		} else {
+			quiet = 0
+		}
+		if quiet >= 50 {
+			panic(Blocked{op})
+		}
+		time.Sleep(2 * time.Millisecond)
+	}
+}
+
+var parkedStates = []string{"chan receive", "chan send", "select", "semacquire", "sync.Mutex.Lock", "sync.RWMutex.RLock", "sync.RWMutex.Lock", "sync.Cond.Wait", "sync.WaitGroup.Wait"}
+
+// othersParked reports whether every goroutine except the caller is parked in a wait that only another goroutine can end.
+func othersParked() bool {
+	buf := make([]byte, 1<<16)
+	for {
+		n := runtime.Stack(buf, true)
+		if n < len(buf) {
+			buf = buf[:n]
+			break
+		}
+		buf = make([]byte, 2*len(buf))
+	}
+	first := true
+	for _, blk := range strings.Split(string(buf), "\n\n") {
+		if !strings.HasPrefix(blk, "goroutine ") {
+			continue
+		}
+		if first { // the caller itself is printed first
+			first = false
+			continue
+		}
+		i, j := strings.IndexByte(blk, '['), strings.IndexByte(blk, ']')
+		if i < 0 || j < i {
+			return false
+		}
+		st := blk[i+1 : j]
+		if k := strings.IndexByte(st, ','); k >= 0 {
+			st = st[:k]
+		}
+		ok := false
+		for _, p := range parkedStates {
+			ok = ok || strings.HasPrefix(st, p)
+		}
+		if !ok {
+			return false
+		}
+	}
+	return true
 }
 
 // Go runs fn on a new goroutine; a managed thread creates a managed thread.
@@ -106,9 +237,7 @@ type Mutex struct {
 
 func (m *Mutex) Lock() {
 	if !vsched.Point(vsched.OpLock, uintptr(unsafe.Pointer(m)), 0) && Sequential {
-		if !m.mu.TryLock() {
-			panic(Blocked{"Mutex.Lock"})
-		}
+		SeqAcquire(m.mu.TryLock, "Mutex.Lock")
 		return
 	}
 	m.mu.Lock()
@@ -141,9 +270,7 @@ func (m *RWMutex) Lock() {
 	if vsched.Point(vsched.OpWLockReq, p, 0) {
 		vsched.Point(vsched.OpLock, p, 0)
 	} else if Sequential {
-		if !m.mu.TryLock() {
-			panic(Blocked{"RWMutex.Lock"})
-		}
+		SeqAcquire(m.mu.TryLock, "RWMutex.Lock")
 		return
 	}
 	m.mu.Lock()
@@ -156,9 +283,7 @@ func (m *RWMutex) Unlock() {
 
 func (m *RWMutex) RLock() {
 	if !vsched.Point(vsched.OpRLock, uintptr(unsafe.Pointer(m)), 0) && Sequential {
-		if !m.mu.TryRLock() {
-			panic(Blocked{"RWMutex.RLock"})
-		}
+		SeqAcquire(m.mu.TryRLock, "RWMutex.RLock")
 		return
 	}
 	m.mu.RLock()
